@@ -277,7 +277,14 @@ def run_verus_file(uid, gen_text, obls, workdir, timeout=600, rlimit=100, type_m
         m = UNKNOWN_METHOD.search(und)
         mf = UNKNOWN_FN.search(und)
         mv = UNKNOWN_VALUE.search(und)
-        if m and (m.group(1), m.group(2)) not in added and re.search(r"\.\s*" + m.group(1) + r"\s*\(\s*\)", gen_text):
+        if m and (m.group(1), m.group(2)) not in added and (m.group(1) in ("clone", "to_owned") or (m.group(1) == "to_string" and re.search(r"Str|Text", m.group(2)))) \
+                and re.search(r"\bstruct\s+" + m.group(2) + r"\b", gen_text):
+            # R15e: Clone / ToOwned (and ToString of a text model) on an opaque model type: the same value
+            name, ty = m.group(1), m.group(2)
+            added.append((name, ty))
+            stub = (f"\n// R15e: `{ty}::{name}`: a copy is the same value\n"
+                    f"impl {ty} {{ #[verifier::external_body] pub fn {name}(&self) -> (r: {ty}) ensures r == *self {{ unimplemented!() }} }}\n")
+        elif m and (m.group(1), m.group(2)) not in added and re.search(r"\.\s*" + m.group(1) + r"\s*\(\s*\)", gen_text):
             name, ty = m.group(1), m.group(2)
             added.append((name, ty))
             fallible = re.search(r"\.\s*" + name + r"\s*\(\s*\)\s*\?", gen_text) is not None
